@@ -45,7 +45,7 @@ KNOWN_SAME_DIR = 'same-dir-manifest-stale-ref'
 KNOWN_DEDUP = 'dedup-removes-kept-entry'
 
 
-def dedup_trigger_paths(root):
+def dedup_trigger_paths(root, with_manifests=False):
     """Paths for which the known de-duplication defect is triggered by the
     Manifest state on disk: one Manifest holds, for the same path, an entry
     a (the first one) and a later entry b with equal tag and size and
@@ -73,6 +73,7 @@ def dedup_trigger_paths(root):
             listed.setdefault(refscan.join(mdir, e.path), []).append(
                 (mdir, mp, e))
     out = set()
+    where = {}
     for full, lst in listed.items():
         maxdepth = max(len(mdir) for mdir, mp, e in lst)
         by_manifest = {}
@@ -85,6 +86,9 @@ def dedup_trigger_paths(root):
                 if (b.tag == a.tag and b.size == a.size
                         and set(a.checksums) <= set(b.checksums)):
                     out.add(full)
+                    where.setdefault(full, set()).add(mp)
+    if with_manifests:
+        return where
     return out
 
 
